@@ -582,6 +582,29 @@ func checkC20(c *Ctx) {
 				bad = append(bad, sq)
 			}
 		}
+		// what is registered is a flag.Value: when it is not *zapcore.Level itself (whose Set is decided below), its own
+		// Set must obey the same contract - the variable changes only when the text parsed
+		for _, f := range Region(lf) {
+			for _, cl := range Calls(f) {
+				if !IsCallTo(cl, "flag.Var", "(*flag.FlagSet).Var") {
+					continue
+				}
+				for _, a := range cl.Common().Args {
+					mi, isMI := a.(*ssa.MakeInterface)
+					if !isMI {
+						continue
+					}
+					if strings.HasSuffix(TypeName(mi.X.Type()), "zapcore.Level") {
+						continue
+					}
+					if m := c.SSA.LookupMethod(mi.X.Type(), nil, "Set"); m != nil && curProgRoot(m) && m.Synthetic == "" {
+						c20PlainSetGuarded(c, "R20.4", m)
+					} else {
+						c.Und("R20.4", lf.String(), "flag-value-set", cl.Pos(), "the registered flag.Value (%s) has no Set method in the analysed packages", TypeName(mi.X.Type()))
+					}
+				}
+			}
+		}
 		c.Check(!trunc && len(seqs) > 0 && len(bad) == 0, "R20.4", lf.String(), "registers-returned-var", lf.Pos(), "on every path a fresh Level variable is initialised with the default, registered with the process-wide flag set, and its address is what is returned (offending: %v)", bad)
 	}
 	set := c.Method(CorePath, "Level", "Set")
@@ -851,4 +874,116 @@ func c20ReturnsParsedOnlyOnSuccess(c *Ctx, rule string, fn *ssa.Function) {
 			c.Check(isC && v == 0, rule, fn.String(), "error-returns-zero#"+itoa(k+1), r.Pos(), "error returns carry the zero level, not a half-parsed one")
 		}
 	}
+}
+
+// c20PlainSetGuarded: a Set(string) error method of a flag value kept in a plain variable: by path exploration with
+// the level parser forked into success / failure, nothing is stored through the receiver after a failed parse (a
+// rejected flag text must leave the level as it was), and an accepted text is stored and nil returned.
+func c20PlainSetGuarded(c *Ctx, rule string, fn *ssa.Function) {
+	if len(fn.Params) < 2 {
+		c.Und(rule, fn.String(), "set-only-after-successful-parse", fn.Pos(), "unexpected signature")
+		return
+	}
+	recv := fn.Params[0]
+	isParser := func(cl *ssa.Call) bool {
+		return IsCallTo(cl, "go.uber.org/zap/zapcore.ParseLevel", "(*go.uber.org/zap/zapcore.Level).UnmarshalText", "(*go.uber.org/zap/zapcore.Level).Set")
+	}
+	resolve := func(st *ConcState, v ssa.Value) ssa.Value {
+		for k := 0; k < 16; k++ {
+			switch x := v.(type) {
+			case *ssa.ChangeType:
+				v = x.X
+				continue
+			case *ssa.Convert:
+				v = x.X
+				continue
+			}
+			nx := st.Step(v)
+			if nx == nil {
+				break
+			}
+			v = nx
+		}
+		return v
+	}
+	seqs, trunc := ConcPaths(fn, ConcCfg{
+		Fork: func(in ssa.Instruction, st *ConcState) []ConcAlt {
+			var v ssa.Value
+			switch x := in.(type) {
+			case *ssa.Call:
+				if isParser(x) {
+					if _, isTuple := x.Type().(*types.Tuple); !isTuple {
+						v = x
+					}
+				}
+			case *ssa.Extract:
+				if cl, ok := x.Tuple.(*ssa.Call); ok && isParser(cl) && x.Index == 1 {
+					v = x
+				}
+			}
+			if v == nil {
+				return nil
+			}
+			return []ConcAlt{{Ev: "parsed", Nils: map[ssa.Value]bool{v: true}}, {Ev: "rejected", Nils: map[ssa.Value]bool{v: false}}}
+		},
+		Event: func(in ssa.Instruction, st *ConcState) string {
+			switch x := in.(type) {
+			case *ssa.Store:
+				if resolve(st, x.Addr) == ssa.Value(recv) {
+					return "store"
+				}
+			case *ssa.Call:
+				// the parser filling in the receiver itself (l.UnmarshalText(text) on *Level) stores on success only: its
+				// own contract
+			case *ssa.Return:
+				if len(x.Results) == 1 {
+					if n, known := st.IsNil(x.Results[0]); known && n {
+						return "ret-nil"
+					} else if known {
+						return "ret-err"
+					}
+					return "ret-?"
+				}
+			}
+			return ""
+		},
+	})
+	var bad []string
+	nOK := 0
+	for _, sq := range seqs {
+		toks := strings.Split(sq, " ; ")
+		rejected, stored := false, false
+		badPath := false
+		for _, t := range toks {
+			switch t {
+			case "rejected":
+				rejected = true
+			case "store":
+				stored = true
+				if rejected {
+					badPath = true // the variable changes although the text was rejected
+				}
+			}
+		}
+		last := toks[len(toks)-1]
+		if rejected && last != "ret-err" || !rejected && last != "ret-nil" {
+			badPath = true
+		}
+		// a store BEFORE the verdict is known also changes the variable on rejection
+		seenVerdict := false
+		for _, t := range toks {
+			if t == "parsed" || t == "rejected" {
+				seenVerdict = true
+			}
+			if t == "store" && !seenVerdict {
+				badPath = true
+			}
+		}
+		if badPath {
+			bad = append(bad, sq)
+		} else if !rejected && stored {
+			nOK++
+		}
+	}
+	c.Check(!trunc && len(seqs) > 0 && len(bad) == 0 && nOK > 0, rule, fn.String(), "set-only-after-successful-parse", fn.Pos(), "over %d paths (parser forked into success / failure): the variable is assigned only after the text parsed, and then nil is returned; a rejected text stores nothing and returns the error (offending: %v)", len(seqs), bad)
 }
